@@ -199,7 +199,7 @@ def item(draw, lang):
     if k == "func":
         return draw(function(lang))
     if k == "const":
-        it = {"k": "const", "lit": draw(literal(lang, "any"))}
+        it = {"k": "const", "lit": draw(literal(lang, "any")), "name_style": draw(st.integers(0, 4))}
         if lang in ("ts", "js"):
             it["export"] = draw(st.booleans())
         if lang == "rs":
